@@ -150,6 +150,15 @@ def check(run):
                     topo['history_user_fixed_first_then_fix_first_false'] = topo.get('history_user_fixed_first_then_fix_first_false', 0) + 1
                     with contextlib.redirect_stdout(io.StringIO()):
                         ret = g.optimize(fix_first_pose=False, verbose=False)
+                elif hist == 'two-calls' and len(free_v) >= 2 and gi % 2 == 1:
+                    # History: the first call solves a MORE constrained problem (one free vertex held at its initial guess by the user); the vertex is then
+                    # released.  chi^2 does not rise by releasing it, the optimum moves: the second call must solve the case's own problem from there.
+                    free_v[0].fixed = True
+                    with contextlib.redirect_stdout(io.StringIO()):
+                        g.optimize(fix_first_pose=c['fixFirst'], verbose=False)
+                    free_v[0].fixed = False
+                    topo['history_two_calls'] = topo.get('history_two_calls', 0) + 1
+                    topo['history_released_vertex'] = topo.get('history_released_vertex', 0) + 1
                 elif hist == 'two-calls' and len(free_v) >= 2:
                     # History: an earlier optimize() on the same Graph; then one free vertex (now at its optimal position) is marked fixed and the
                     # others are moved to a new guess.  Fixing a vertex AT the optimum does not change the optimum of the others.
